@@ -29,6 +29,7 @@ EXPLANATION = (
     " (R8, extended) a class that takes length_attr passes it to the node expansion (node_length_attr), and percentile options are computed over non-ignored elements. "
     "NOT decided: that the optimum is taken over exactly the constrained solutions; 'and nothing else' for ignored elements."
     ' (R8, hunt 4) the cap provider of the cyclic error models excludes ignored edges from the maxima and gives them a structural bound (C04.R5).'
+    " (R8, hunt 6) MinErrorFlow's variable bound is computed from non-ignored elements (C16.R8)."
 )
 DECIDED = ["constraint families present and complete", "ignoring is the only way an edge is skipped", "scale 0 implies ignored",
            "additional starts/ends wired to the synthetic source/sink by the documented rule", "greedy rejected on unmet constraints"]
